@@ -33,4 +33,9 @@ theorem c_early_hook_on_completed_op :
     ∃ s, Reach (sys cfgEarly) s ∧ (decide (s.bad = 2) && s.freed && decide (s.completions = 1)) = true :=
   reach_of_choices _ [0, 0, 0, 1, 1, 1, 1, 1, 1, 0, 0, 0, 1, 1, 1, 1, 1, 0] _ (by decide +kernel)
 
+/-- in every schedule the stop() hook is only called for an operation whose completion nobody has
+    claimed (the deciding atomic operation observed `state_` without the `completed` bit) -/
+theorem c_early_stop_hook_only_unclaimed : ∀ s, Reach (sys cfgEarly) s → s.hookLate = false :=
+  stop_hook_only_unclaimed cfgEarly c_early_core
+
 end Unifex.Props.C19.Cancellable
